@@ -20,14 +20,14 @@ class Boom(Exception):
 
 
 VARIANTS = ["fn", "m1", "m2", "static"]
-SPELL = ["pos", "kw", "pos+default", "kw+default"]
+SPELL = ["pos", "kw", "pos+default", "kw+default", "pos+kwonly-default", "kw+all"]
 
 
 # argument values of the two keys: distinct values whose hashes collide in CPython (hash(-1) == hash(-2) == -2)
 KEYVAL = [-1, -2]
 
 
-def make_targets(runs, dur, fails, item, reenter=(False, False)):
+def make_targets(runs, dur, fails, item, reenter=(False, False), self_dirty=(False, False)):
     from asynq import asynq as A
     from asynq.tools import deduplicate
     inside = {}
@@ -40,6 +40,9 @@ def make_targets(runs, dur, fails, item, reenter=(False, False)):
         if inside.get((tag, k)):
             # the re-entrant run (a call from inside the running body gets a private task): returns at once
             return [tag, k, n]
+        if self_dirty[k]:
+            # the running body dirties its own key (documented use): later callers must get a new execution
+            holder[tag].dirty(kv)
         if reenter[k]:
             # the body calls itself with the same key, as the documentation's escape hatch allows
             inside[(tag, k)] = True
@@ -55,7 +58,7 @@ def make_targets(runs, dur, fails, item, reenter=(False, False)):
 
     @deduplicate()
     @A()
-    def fn(k, extra=7):
+    def fn(k, extra=7, *, fresh=False):
         return (yield from body("fn", k))
 
     class C(object):
@@ -64,13 +67,13 @@ def make_targets(runs, dur, fails, item, reenter=(False, False)):
 
         @deduplicate()
         @A()
-        def m(self, k, extra=7):
+        def m(self, k, extra=7, *, fresh=False):
             return (yield from body(self.name, k))
 
         @deduplicate()
         @A()
         @staticmethod
-        def s(k, extra=7):
+        def s(k, extra=7, *, fresh=False):
             return (yield from body("static", k))
 
     i1, i2 = C("m1"), C("m2")
@@ -86,6 +89,10 @@ def call_async(target, k, spell):
         return target.asynq(k=k)
     if spell == "pos+default":
         return target.asynq(k, 7)
+    if spell == "pos+kwonly-default":
+        return target.asynq(k, fresh=False)
+    if spell == "kw+all":
+        return target.asynq(fresh=False, extra=7, k=k)
     return target.asynq(k=k, extra=7)
 
 
@@ -97,6 +104,10 @@ def call_dirty(target, k, spell):
         return target.dirty(k=k)
     if spell == "pos+default":
         return target.dirty(k, 7)
+    if spell == "pos+kwonly-default":
+        return target.dirty(k, fresh=False)
+    if spell == "kw+all":
+        return target.dirty(fresh=False, extra=7, k=k)
     return target.dirty(k=k, extra=7)
 
 
@@ -108,7 +119,8 @@ def strat_timed(tier):
     return st.fixed_dictionaries({"events": st.lists(ev, min_size=2, max_size=8 if tier == "quick" else 14),
                                   "dur": st.lists(st.sampled_from([1, 2, 2, 3, 4]), min_size=2, max_size=2),
                                   "fails": st.lists(st.sampled_from([False, False, True]), min_size=2, max_size=2),
-                                  "reenter": st.lists(st.sampled_from([False, False, True]), min_size=2, max_size=2)})
+                                  "reenter": st.lists(st.sampled_from([False, False, True]), min_size=2, max_size=2),
+                                  "self_dirty": st.lists(st.sampled_from([False, False, False, True]), min_size=2, max_size=2)})
 
 
 def check_timed(case, ctx):
@@ -117,13 +129,14 @@ def check_timed(case, ctx):
     env = engine.Env({"root": {"id": 0, "body": []}, "prio": {}})
     evs, dur, fails = case["events"], case["dur"], case["fails"]
     reenter = case.get("reenter", [False, False])
+    self_dirty = case.get("self_dirty", [False, False])
     runs = collections.Counter()
     uid = [0]
 
     def item():
         uid[0] += 1
         return engine.HItem(env, "a", 0, "ok", uid[0])
-    targets, keepalive = make_targets(runs, dur, fails, item, reenter)
+    targets, keepalive = make_targets(runs, dur, fails, item, reenter, self_dirty)
     obs = {}
 
     @A()
@@ -161,7 +174,7 @@ def check_timed(case, ctx):
     members = collections.defaultdict(list)
 
     def bad(clause, msg):
-        viol.append(("C12." + clause, "events %r, body rounds %r, fails %r, body re-enters itself %r: %s" % (evs, dur, fails, reenter, msg)))
+        viol.append(("C12." + clause, "events %r, body rounds %r, fails %r, body re-enters itself %r, body dirties its own key %r: %s" % (evs, dur, fails, reenter, self_dirty, msg)))
 
     for i in order:
         t, kind, var, k, spell = evs[i]
@@ -206,6 +219,11 @@ def check_timed(case, ctx):
                 mruns[key] += 1        # the body's own re-entrant call runs the body once more (private task)
             inflight[key] = {"mid": mid, "created": t, "done": t + dur[k]}
             members[mid].append(i)
+            if self_dirty[k]:
+                # the body, which starts running as soon as its first caller has yielded it, dirties its own key:
+                # the entry is gone before any later caller acts
+                inflight.pop(key, None)
+                classes.add("body-dirties-own-key")
             if key in completed_keys:
                 classes.add("call-after-completion")
             if "dirty-while-in-flight:" + repr(key) in classes:
@@ -225,6 +243,7 @@ def check_timed(case, ctx):
     for c in ("second-call-strictly-inside", "call-after-dirty", "call-after-completion"):
         ctx.label(c, c in classes)
     ctx.label("tie", ties > 0)
+    ctx.label("body-dirties-own-key", "body-dirties-own-key" in classes)
     ctx.label("body-reenters-itself", any(reenter[evs[i][3]] for i in order if evs[i][1] == "call"))
     ctx.label("failing-body-shared", any(fails[info[m][0][1]] and len(ix) > 1 for m, ix in members.items()))
     ctx.nontrivial(case, nontriv)
@@ -354,6 +373,8 @@ def reduce_timed(case):
         yield dict(case, fails=[False, False])
     if any(case.get("reenter", [])):
         yield dict(case, reenter=[False, False])
+    if any(case.get("self_dirty", [])):
+        yield dict(case, self_dirty=[False, False])
 
 
 def reduce_top(case):
